@@ -8,6 +8,7 @@ package hc04
 import (
 	"context"
 	"fmt"
+	mockrules "github.com/attestantio/dirk/rules/mock"
 
 	"github.com/attestantio/dirk/rules"
 	standardrules "github.com/attestantio/dirk/rules/standard"
@@ -370,4 +371,39 @@ func BatchBetweenSinglesSymbolic() {
 		return r
 	}
 	concurrent(2, 2, false, false, mk([]int{1}, 1, 5), mk([]int{0, 1}, 2, 5), attReq("c", []int{0}))
+}
+
+// DeadlockKeyValues: the keys themselves are solver variables.  A batch naming two different keys
+// (the second one arbitrary in its last two bytes) followed by single requests for both: every
+// request completes whatever the key values are (no two keys may end up waiting on one another
+// because of their values).  The rules are a stub that approves (the store is not the subject and
+// its keys must be concrete).
+func DeadlockKeyValues() {
+	vsym.ForbidCrash()
+	ctx := context.Background()
+	r := hc.NewRuler(ctx, mockrules.New())
+	k1 := hc.Keys[0]
+	k2 := hc.Keys[1]
+	k2[46], k2[47] = vsym.Byte("k2_46"), vsym.Byte("k2_47")
+	differ := false
+	for i := range k1 {
+		differ = vsym.Or(differ, k1[i] != k2[i])
+	}
+	vsym.Assume(differ)
+	mk := func(keys ...[48]byte) []*ruler.RulesData {
+		var out []*ruler.RulesData
+		for j, k := range keys {
+			out = append(out, &ruler.RulesData{WalletName: "W", AccountName: fmt.Sprintf("a%d", j), PubKey: append([]byte(nil), k[:]...),
+				Data: &rules.SignBeaconAttestationData{Domain: attDomain(), BeaconBlockRoot: hc.Root,
+					Source: &rules.Checkpoint{Epoch: 1, Root: hc.Root}, Target: &rules.Checkpoint{Epoch: 2, Root: hc.Root}}})
+		}
+		return out
+	}
+	res := r.RunRules(ctx, hc.Creds(), ruler.ActionSignBeaconAttestation, mk(k1, k2))
+	vsym.Assert("K1-batch-answered", len(res) == 2)
+	res = r.RunRules(ctx, hc.Creds(), ruler.ActionSignBeaconAttestation, mk(k2))
+	vsym.Assert("K2-single-answered", len(res) == 1)
+	res = r.RunRules(ctx, hc.Creds(), ruler.ActionSignBeaconAttestation, mk(k2, k1))
+	vsym.Assert("K3-reversed-batch-answered", len(res) == 2)
+	vsym.Reach("all-completed")
 }
